@@ -60,6 +60,14 @@ add('C04', 'exploration',
     'Reference decoders correct; code sizes between 41 bytes and the capacity edge covered at selected sizes only.',
     'DESIGN.md 4/C04')
 
+add('C17', 'model_checking',
+    'explicit-state search over accessor-call sequences on the real section objects beside a plain-array reference model; '
+    'frame condition on all five regions and every getter compared after every transition',
+    'All sequences to depth 2 (gff 3; thorough 3/4 with a reduced deep menu) from three initial contents over menus that '
+    'cross every sprite-sheet and map edge by 0, 1 and many cells, incl. TRANSPARENT and ragged rows.',
+    'Reference model = the accessor docstrings; corner ids/coordinates represent the interior (affine index arithmetic).',
+    'DESIGN.md 5/C17')
+
 PENDING = {
 }
 
